@@ -574,6 +574,8 @@ class Engine:
                 return t.n(v.e) > 0
             if isinstance(t, TTuple):
                 return len(t.ts) > 0
+            if isinstance(t, TSet):
+                return v.e != t.empty()      # a set is true iff it is not the empty set (arrays are extensional)
             h = self.truth_hooks.get(t.name)
             if h is not None:
                 return h(self, v)          # truthiness of an abstract object (e.g. a graph: non-empty), given by the contract
@@ -1158,6 +1160,14 @@ class Engine:
                     self.havoc_path(m, env)
                 for x in conds[1:]:
                     self.assume(self._b(self.spec_truth(x, env)))
+                raise PyExc(exc, (), line)
+        # exceptions the contract allows without saying when (allow_exc): the callee may raise them at will
+        for exc in sorted(getattr(c, 'allow_exc', ()) or ()):
+            if exc in c.raises:
+                continue
+            if not self.branch(self.fresh(TBool, 'no_' + exc)):
+                for m in c.modifies:
+                    self.havoc_path(m, env)
                 raise PyExc(exc, (), line)
         for m in c.modifies:
             self.havoc_path(m, env)
